@@ -72,6 +72,8 @@ func runHistory(c *core.Ctx, r *core.Rand, o histOpts) {
 			c.Count("fan_in_steps", 1)
 		} else if o.FanIn && t >= o.NTx-13 {
 			ops = setSwapOps(e, t-(o.NTx-13))
+		} else if o.FanIn && (t == o.NTx-18 || t == o.NTx-17) {
+			ops = uniqueReleaseOps(e, t-(o.NTx-18))
 		} else if o.FanIn && t >= o.NTx-16 && len(e.EmpPool) > 0 && e.EmpPool[len(e.EmpPool)-2] == "D1" {
 			ops = sameIdOps(e, t-(o.NTx-16)) // id universes are shared: an employee and its department with the same id
 		}
@@ -118,6 +120,44 @@ func runHistory(c *core.Ctx, r *core.Rand, o histOpts) {
 	}
 	if c.WantSample() {
 		c.Sample(map[string]any{"cfg": o.Cfg.String(), "first_transactions": tailHistHead(hist, 3)})
+	}
+}
+
+// uniqueReleaseOps: a unique value is released and taken twice in one transaction. Step 0 gives department X the name
+// "rel-1"; step 1 is one transaction: X is renamed (the value is free again), a new department takes "rel-1", and a
+// second new department asks for it as well - which is a duplicate, the transaction fails.
+func uniqueReleaseOps(e *kmodel.Engine, step int) []kmodel.Op {
+	var free []string
+	x := ""
+	for _, id := range e.DeptPool {
+		if _, ok := e.M.Ents[kmodel.Depts][id]; !ok {
+			free = append(free, id)
+		} else if x == "" {
+			x = id
+		}
+	}
+	if step == 0 {
+		if x == "" {
+			if len(free) == 0 {
+				return nil
+			}
+			return []kmodel.Op{{Kind: "create", Store: kmodel.Depts, Id: free[0], V: map[string]any{"name": "rel-1"}}}
+		}
+		return []kmodel.Op{{Kind: "update", Store: kmodel.Depts, Id: x, V: map[string]any{"name": "rel-1"}}}
+	}
+	holder := ""
+	for id, ent := range e.M.Ents[kmodel.Depts] {
+		if n, _ := ent.V["name"].(string); n == "rel-1" {
+			holder = id
+		}
+	}
+	if holder == "" || len(free) < 2 {
+		return nil
+	}
+	return []kmodel.Op{
+		{Kind: "update", Store: kmodel.Depts, Id: holder, V: map[string]any{"name": "rel-2"}},
+		{Kind: "create", Store: kmodel.Depts, Id: free[0], V: map[string]any{"name": "rel-1"}},
+		{Kind: "create", Store: kmodel.Depts, Id: free[1], V: map[string]any{"name": "rel-1"}},
 	}
 }
 
